@@ -703,7 +703,7 @@ Lemma C15_limit_counter_refuted :
   exists shard ops f mx c,
     Forall (op_wf f) ops /\ Forall (ctr_disciplined f mx) ops /\ mx c < 4294967296
     /\ session_alive (f c) c false ops = true
-    /\ Known_C15_two_sessions (f c) shard ops
+    /\ Known_C15_session_touch c shard ops
     /\ ctr_of (run (empty_table shard) ops) c = 18446744073709551615
     /\ sess_recount (run (empty_table shard) ops) c = 0
     /\ snd (step (run (empty_table shard) ops)
